@@ -261,6 +261,7 @@ func runC13(r *Report) {
 	c13R2(r)
 	c13R3(r)
 	c13R4(r)
+	c13Decoders(r, "R4")
 	c13TypedNil(r, "R1")
 }
 
@@ -1141,4 +1142,81 @@ func c13TypedNil(r *Report, rule string) {
 		}
 	}
 	r.Sentinel(rule+".typed-nil", n, 2)
+}
+
+// c13Decoders: hash.Parse is handed whatever follows "magnet:" (and every xt= value, HTTP parameter and command-line
+// argument). The decoders that write into a caller-supplied buffer — hex.Decode, (*base32.Encoding).Decode,
+// (*base64.Encoding).Decode — index past its end when the input is longer than the buffer provides for (they panic;
+// they do not return an error). Wherever the module uses one, the destination is made for this very source:
+// make([]byte, DecodedLen(len(src))) (or len(src), which is never less), or the source's length is bounded by a guard
+// that fits the destination. The *String variants allocate what they need.
+func c13Decoders(r *Report, rule string) {
+	p := r.P
+	env := &IntEnv{}
+	n := 0
+	for _, f := range p.SrcFuncs() {
+		if !strings.HasPrefix(funcPkgPath(f), modPath) {
+			continue
+		}
+		allInstrs(f, func(in ssa.Instruction) {
+			c, ok := in.(*ssa.Call)
+			if !ok || c.Call.IsInvoke() {
+				return
+			}
+			o := calleeObj(c)
+			if o == nil || o.Pkg() == nil || o.Name() != "Decode" {
+				return
+			}
+			ratioNum, ratioDen := int64(0), int64(1) // decoded length <= len(src) * num / den
+			switch o.Pkg().Path() {
+			case "encoding/hex":
+				ratioNum, ratioDen = 1, 2
+			case "encoding/base32":
+				ratioNum, ratioDen = 5, 8
+			case "encoding/base64":
+				ratioNum, ratioDen = 3, 4
+			default:
+				return
+			}
+			args := c.Call.Args
+			dst, src := args[len(args)-2], args[len(args)-1]
+			n++
+			r.Fn(f)
+			good := false
+			if ms, isMk := dst.(*ssa.MakeSlice); isMk {
+				l := stripIntConv(ms.Len)
+				// make([]byte, len(src)) or make([]byte, X.DecodedLen(len(src)))
+				if isLenOf(l, src) {
+					good = true
+				}
+				if dc, isC := l.(*ssa.Call); isC && calleeObj(dc) != nil && calleeObj(dc).Name() == "DecodedLen" && len(dc.Call.Args) > 0 && isLenOf(stripIntConv(dc.Call.Args[len(dc.Call.Args)-1]), src) {
+					good = true
+				}
+				if !good {
+					// a bounded source: len(src)*num/den <= len(dst) by intervals
+					dl := env.At(ms.Len, c.Block())
+					var srcLen Itv = Itv{0, posInf}
+					allInstrs(f, func(i2 ssa.Instruction) {
+						if lc, isL := i2.(*ssa.Call); isL && isLenOf(lc, src) && instrDominates(lc, c) {
+							srcLen = env.At(lc, c.Block())
+						}
+					})
+					if cv, isCv := src.(*ssa.Convert); isCv {
+						// []byte(s): the string's length
+						allInstrs(f, func(i2 ssa.Instruction) {
+							if lc, isL := i2.(*ssa.Call); isL && isLenOf(lc, cv.X) && instrDominates(lc, c) {
+								srcLen = srcLen.meet(env.At(lc, c.Block()))
+							}
+						})
+					}
+					if srcLen.Hi != posInf && dl.Lo >= (srcLen.Hi*ratioNum+ratioDen-1)/ratioDen {
+						good = true
+					}
+				}
+			}
+			r.Check(good, rule, fmt.Sprintf("%s/%s.Decode-destination-fits", fname(f), o.Pkg().Name()), c.Pos(), "the destination is made for this source (DecodedLen(len(src))), or the source is bounded to fit it",
+				fmt.Sprintf("%s decodes into a buffer that is not sized from the input: %s.Decode indexes past the end of a destination that is too small — it panics, it does not return an error — so an over-long identifier (a 64-digit v2 hash where a v1 hash is expected, in a magnet link, an HTTP parameter or on the command line) crashes the process instead of being refused", fname(f), o.Pkg().Name()))
+		})
+	}
+	r.Sentinel(rule+".decoders", n, 0)
 }
